@@ -99,6 +99,13 @@ func (fr *Frame) doCall(c *ssa.CallCommon, fnv Val, args []Val, rt types.Type, p
 					}
 				}
 			}
+			if p, ok := c.Value.(*ssa.Parameter); ok {
+				if k := funcKey(fr.fn) + "." + p.Name(); fr.vc.S.NoEffect[k] {
+					fr.vc.note("call of the function parameter " + k + ": declared to have no effect on modelled state")
+					res = fr.typed(fr.vc.freshVal("ret."+sanitize(k), rt))
+					break
+				}
+			}
 			res = fr.unknownCall("dynamic call of func value", args, rt, true)
 			break
 		}
@@ -128,7 +135,7 @@ func (fr *Frame) staticCall(callee *ssa.Function, bindings []Val, args []Val, rt
 		}
 		vc.note("call of " + funcKey(callee) + " (no contract, not inlined): havoc of its syntactic may-modify set")
 		ms := vc.modSet(callee, map[*ssa.Function]bool{})
-		fr.cur.heap = vc.heapHavoc(fr.cur.heap, ms)
+		fr.cur.heap = fr.keepLocals(vc.heapHavoc(fr.cur.heap, ms), nil)
 		fr.bumpNow()
 		return fr.typed(vc.freshVal("ret."+callee.Name(), rt))
 	}
@@ -251,7 +258,7 @@ func (fr *Frame) unknownCall(why string, args []Val, rt types.Type, mayWrite boo
 	vc := fr.vc
 	vc.note(why + " in " + fr.top.fn.String() + ": full havoc")
 	if mayWrite {
-		fr.cur.heap = vc.heapHavoc(fr.cur.heap, map[string]bool{"*": true})
+		fr.cur.heap = fr.keepLocals(vc.heapHavoc(fr.cur.heap, map[string]bool{"*": true}), nil)
 	}
 	fr.bumpNow()
 	return fr.typed(vc.freshVal("ret", rt))
@@ -349,7 +356,7 @@ func (fr *Frame) externalCall(name string, sig *types.Signature, args []Val, rt 
 		}
 	}
 	fr.cur.heap = h
-	fr.cur.heap = vc.heapHavoc(fr.cur.heap, set)
+	fr.cur.heap = fr.keepLocals(vc.heapHavoc(fr.cur.heap, set), nil)
 	fr.bumpNow()
 	return fr.typed(vc.freshVal("ret."+sanitize(name), rt))
 }
@@ -500,7 +507,7 @@ func (fr *Frame) havocModifies(ct *Contract, env *Env, calleeKey string) *Heap {
 	if !ct.HasMod {
 		set := map[string]bool{}
 		vc.modSetContractT(ct, vc.P.Funcs[calleeKey], set, nil)
-		return vc.heapHavoc(h, set)
+		return fr.keepLocals(vc.heapHavoc(h, set), nil)
 	}
 	set := map[string]bool{}
 	for _, m := range ct.Modifies {
@@ -521,7 +528,96 @@ func (fr *Frame) havocModifies(ct *Contract, env *Env, calleeKey string) *Heap {
 			h = vc.storeLoc(h, loc, nv)
 		}
 	}
-	return vc.heapHavoc(h, set)
+	return fr.keepLocals(vc.heapHavoc(h, set), nil)
+}
+
+// keepLocals records on a havoc node the maps made by this activation (and its inlining
+// ancestors) that never escape: they are used only through m[k], m[k]=v, delete, len and range
+// on the SSA value itself, so no callee can reach them, and a loop leaves them alone unless
+// its own blocks update them.
+func (fr *Frame) keepLocals(h *Heap, li *loopInfo) *Heap {
+	if h.kind != hHavocSet || h.keep != nil {
+		return h
+	}
+	for f := fr; f != nil; f = f.parent {
+		for _, m := range f.localMaps() {
+			v, ok := f.vals[m]
+			if !ok || len(v.L) == 0 {
+				continue
+			}
+			if f == fr && li != nil && updatedIn(m, li) {
+				continue
+			}
+			h.keep = append(h.keep, v.L[0])
+		}
+	}
+	return h
+}
+
+func updatedIn(m ssa.Value, li *loopInfo) bool {
+	for _, ref := range *m.Referrers() {
+		if !li.blocks[ref.Block()] {
+			continue
+		}
+		switch r := ref.(type) {
+		case *ssa.MapUpdate:
+			return true
+		case ssa.CallInstruction:
+			if b, ok := r.Common().Value.(*ssa.Builtin); ok && b.Name() == "delete" {
+				return true
+			}
+		}
+	}
+	return false
+}
+
+var localMapsMemo = map[*ssa.Function][]ssa.Value{}
+
+func (fr *Frame) localMaps() []ssa.Value {
+	if ms, ok := localMapsMemo[fr.fn]; ok {
+		return ms
+	}
+	var out []ssa.Value
+	for _, b := range fr.fn.Blocks {
+		for _, in := range b.Instrs {
+			mm, ok := in.(*ssa.MakeMap)
+			if !ok || mm.Referrers() == nil {
+				continue
+			}
+			local := true
+			for _, ref := range *mm.Referrers() {
+				switch r := ref.(type) {
+				case *ssa.DebugRef:
+				case *ssa.MapUpdate:
+					if r.Map != ssa.Value(mm) || r.Key == ssa.Value(mm) || r.Value == ssa.Value(mm) {
+						local = false
+					}
+				case *ssa.Lookup:
+					if r.X != ssa.Value(mm) || r.Index == ssa.Value(mm) {
+						local = false
+					}
+				case *ssa.Range:
+				case *ssa.Call:
+					bi, isB := r.Call.Value.(*ssa.Builtin)
+					if !isB || (bi.Name() != "len" && bi.Name() != "delete") || r.Call.Args[0] != ssa.Value(mm) {
+						local = false
+					}
+					for _, a := range r.Call.Args[1:] {
+						if a == ssa.Value(mm) {
+							local = false
+						}
+					}
+				default:
+					local = false
+				}
+			}
+			if local {
+				out = append(out, mm)
+			}
+		}
+	}
+	localMapsMemo[fr.fn] = out
+	return out
 }
 
 // modTargets resolves one modifies entry to precise locations and/or whole families.
@@ -810,6 +906,9 @@ func (vc *VC) modSetCall(c *ssa.CallCommon, set map[string]bool, onpath map[*ssa
 		}
 	}
 	if callee == nil {
+		if vc.noEffectDynamic(c) {
+			return
+		}
 		set["*"] = true
 		return
 	}
@@ -830,6 +929,26 @@ func (vc *VC) modSetCall(c *ssa.CallCommon, set map[string]bool, onpath map[*ssa
 		return
 	}
 	vc.modSetExternal(c, set)
+}
+
+// noEffectDynamic: a dynamic call that doCall treats as having no effect on modelled state
+// (context.CancelFunc, a func-typed field or parameter declared `noeffect`).
+func (vc *VC) noEffectDynamic(c *ssa.CallCommon) bool {
+	if vc.typeName(c.Value.Type()) == "context.CancelFunc" {
+		return true
+	}
+	switch v := c.Value.(type) {
+	case *ssa.UnOp:
+		if fa, ok := v.X.(*ssa.FieldAddr); ok {
+			T := fa.X.Type().Underlying().(*types.Pointer).Elem()
+			return vc.S.NoEffect[vc.typeName(T)+"."+fieldName(T, fa.Field)]
+		}
+	case *ssa.Parameter:
+		if v.Parent() != nil {
+			return vc.S.NoEffect[funcKey(v.Parent())+"."+v.Name()]
+		}
+	}
+	return false
 }
 
 func (vc *VC) modSetExternal(c *ssa.CallCommon, set map[string]bool) {
